@@ -60,3 +60,9 @@ Proof.
           rewrite <- (tanh_half_sigmoid x); ring
         | field; lra ].
 Qed.
+
+(* the pairwise update of logsumexp.cc:25-27 is ln (e^a + e^b) -- proved in Stable.v;
+   grouped statement about sigmoid / softplus used by Props/Properties_C02_scalar.v *)
+Theorem stable_elem_all x :
+  fw_softplus x = ln (1 + exp x) /\ fw_sigmoid x = 1 / (1 + exp (- x)) /\ 0 < fw_sigmoid x < 1.
+Proof. exact (conj (softplus_stable_eq x) (conj (sigmoid_tanh_eq x) (sigmoid_range x))). Qed.
